@@ -56,6 +56,9 @@ func (u *Universe) frameObligations(prop string) []FrameResult {
 	if want("C16", "C12") {
 		add(u.groundGlobalInit("nameBase64", "base64.URLEncoding.WithPadding(base64.NoPadding)", []string{"C16", "C12"}))
 	}
+	if want("C10") {
+		add(u.frameTiny()...)
+	}
 	add(u.effectObligations(prop)...)
 	for _, r := range u.frameCaseCalls(prop) {
 		out = append(out, r)
